@@ -2,7 +2,10 @@
 
 package mailbox
 
-import "github.com/btcsuite/btcd/btcec/v2"
+import (
+	"github.com/btcsuite/btcd/btcec/v2"
+	"github.com/lightningnetwork/lnd/keychain"
+)
 
 func vNoKeys(p *vParty) bool {
 	return p.m.sendCipher.cipher == nil && p.m.recvCipher.cipher == nil
@@ -100,4 +103,39 @@ func VH_C03_Unpaired() {
 	vAssert(hs.srv.err != nil, "paired server admitted a client that only presented the passphrase")
 	vAssert(hs.s2c.written == 0, "paired server emitted handshake bytes to an unpaired client")
 	vAssert(vNoKeys(hs.srv), "paired server derived traffic keys with an unpaired client")
+}
+
+// VH_C03_Impostor: repeat (key-based) handshake against a party that presents
+// the paired static public key - so every public value it mixes into the
+// handshake is the expected one - but does not hold the matching private key
+// (its Diffie-Hellman results come from a different key). The honest side
+// aborts at the impostor's first message that depends on the static key,
+// a responder emits nothing, nobody gets keys, no auth data is released.
+func VH_C03_Impostor() {
+	pw := vBytes("pw", 14)
+	paired, srvKey, own := vPrivKey("paired_client"), vPrivKey("srv_static"), vPrivKey("impostor_key")
+	vAssume(!vSamePrivKey(paired, srvKey) && !vSamePrivKey(own, srvKey) && !vSamePrivKey(own, paired))
+	hs := &vHS{c2s: newHalf(), s2c: newHalf()}
+	var err1, err2 error
+	if vBool("impostor_is_responder") {
+		// honest initiator (the paired client) against a fake server
+		hs.cli, err1 = vNewParty(true, paired, srvKey.PubKey(), pw, nil, 2, 2)
+		hs.srv, err2 = vNewPartyECDH(false, own, &vImpostorECDH{claimed: srvKey.PubKey(), own: &keychain.PrivKeyECDH{PrivKey: own}}, paired.PubKey(), pw, vBytes("auth", 7), 2, 2)
+		vAssert(err1 == nil && err2 == nil, "machine construction failed")
+		vRunHandshake(hs)
+		vReach("fake-responder")
+		vAssert(hs.cli.err != nil, "initiator completed a key-based handshake with a responder that does not hold the paired key")
+		vAssert(vNoKeys(hs.cli), "initiator derived traffic keys with a responder that does not hold the paired key")
+		vAssert(hs.cli.authCalls == 0, "initiator accepted auth data from a responder that does not hold the paired key")
+		return
+	}
+	hs.srv, err1 = vNewParty(false, srvKey, paired.PubKey(), pw, vBytes("auth", 7), 2, 2)
+	hs.cli, err2 = vNewPartyECDH(true, own, &vImpostorECDH{claimed: paired.PubKey(), own: &keychain.PrivKeyECDH{PrivKey: own}}, srvKey.PubKey(), pw, nil, 2, 2)
+	vAssert(err1 == nil && err2 == nil, "machine construction failed")
+	vAssert(hs.srv.cd.HandshakePattern().Name == KK && hs.cli.cd.HandshakePattern().Name == KK, "patterns are not KK")
+	vRunHandshake(hs)
+	vReach("fake-initiator")
+	vAssert(hs.srv.err != nil, "responder completed a key-based handshake with an initiator that does not hold the paired key")
+	vAssert(hs.s2c.written == 0, "responder emitted handshake bytes (auth payload released) to an initiator that does not hold the paired key")
+	vAssert(vNoKeys(hs.srv), "responder derived traffic keys with an initiator that does not hold the paired key")
 }
